@@ -184,7 +184,9 @@ def check(pid, tier):
 
         # ---- known findings and regression corpus (seconds-long replay tier) ----
         active_known = []
-        findings = [f for f in load_known() if f["property"] == pid]
+        # "also": a finding of another property whose exclusion predicate this property's units need as well
+        # (C05 over colliding keys relies on the C13 findings)
+        findings = [f for f in load_known() if f["property"] == pid or pid in f.get("also", [])]
         replay_results = []
         for f in findings:
             rp = os.path.join(VERIF, f["replay"])
@@ -488,7 +490,7 @@ def replay(path):
         u = unit_for(spec, ff.get("check"))
         pkg = u["pkg"]
         binp = build(work, tree, pkg, ("-asan",), "+asan") if u.get("asan") else build(work, tree, pkg)
-        known = [f["id"] for f in load_known() if f["property"] == pid and f["status"] == "known"]
+        known = [f["id"] for f in load_known() if (f["property"] == pid or pid in f.get("also", [])) and f["status"] == "known"]
         if os.environ.get("VERIF_NO_KNOWN"):
             known = []
         rc, out, to = replay_once(binp, tree, pkg, path, work, "cli", known)
